@@ -54,6 +54,8 @@ pub const PATHS: &[&[u8]] = &[
 pub const AWKWARD: &[&[u8]] = &[
     b"sp ace", b"qu\"ote", b"back\\slash", b"caf\xc3\xa9", b"hi\xff", b" lead", b"trail ", b"d/sp ace/f", b"tab\\t",
     b"\"q", b"a\\", b"oct\\101", b"\xe2\x80\x83em", b"x~", b"*star", b"que?",
+    // siblings that differ in case only (they collapse when the importer runs with core.ignorecase=true)
+    b"A", b"Keep", b"docs/Readme.txt", b"docs/README.TXT", b"SRC/a.md", b"d/F",
 ];
 const MODES: &[&str] = &["100644", "100644", "100644", "100755", "120000"];
 const NAMES: &[&[u8]] = &[b"A U Thor", b"J\xc3\xb6rg M", b"Al 17", b"", b"author committer", b"N O'Body"];
